@@ -91,6 +91,10 @@ def _dataclass_parameters(class_: Class) -> list[Parameter]:
                 # `Visitor.handle_attribute` unwraps it from the annotation.
                 # Maybe create `internal_labels` and store "classvar" in there.
                 "class-attribute" in member.labels and "instance-attribute" not in member.labels
+            ) or (
+                # Unsubscripted `ClassVar` (the visitor only recognizes `ClassVar[...]`).
+                isinstance(member.annotation, Expr)
+                and member.annotation.canonical_path in {"typing.ClassVar", "typing_extensions.ClassVar"}
             ):
                 continue
 
